@@ -11,7 +11,7 @@ from props.base import Context  # noqa: F401
 from props.progcases import ProgramSpec
 
 PID = 'C02'
-EXTRA_MODULES = ['DiffxVerif.Properties.C02Doc']
+EXTRA_MODULES = ['DiffxVerif.Properties.C02Doc', 'DiffxVerif.Properties.C02Closed']
 TIE_MODULES = ['DiffxVerif.Tie.Sections', 'DiffxVerif.Tie.Spec']
 NEEDS = ['sections', 'options', 'text', 'spec_tree']
 # a change of these pattern tables makes the check search with its escalated budget (no obligation)
